@@ -389,3 +389,31 @@ Definition check_part (c : list elem * list (Z * (Z * bool * bool)) * list (Z * 
     | None => false
     end
   end.
+
+(* ---------------------------------------------------------------- SPEC side of the theorems *)
+
+(* where the score says each object is: a note at its onset with its written duration *)
+Definition place_note (n : note) : placed := PNote (oid n) (onset n) (ndur n).
+Definition place_other (o : other) : placed :=
+  POther (match o_div o with Some _ => 1 | None => o_tag o end) (o_onset o).
+
+(* well-formed input: no negative durations *)
+Definition durs_ok (l : list note) : Prop := Forall (fun n => 0 <= dur n) l.
+Definition seg_placed (seg : list note * list other) : list placed :=
+  map place_note (fst seg) ++ map place_other (snd seg).
+
+Definition segs_ok (segs : list (list note * list other)) : Prop :=
+  Forall (fun seg => durs_ok (fst seg)) segs.
+
+(* everything lies inside [.., B] *)
+Definition others_le (B : Z) (Os : list other) : Prop := Forall (fun o => o_onset o <= B) Os.
+Definition notes_le (B : Z) (l : list note) : Prop := Forall (fun n => onset n + ndur n <= B) l.
+
+(* what the reader must output for one voice: the others up to each note, then the note *)
+Fixpoint mwv_placed (N : list (note * bool)) (Os : list other) : list placed :=
+  match N with
+  | [] => map place_other Os
+  | (n, _) :: r =>
+      map place_other (fst (span_le (onset n) Os)) ++
+      place_note n :: mwv_placed r (snd (span_le (onset n) Os))
+  end.
